@@ -158,9 +158,8 @@ func VerifHarness_C02_x509_full() {
 	now := time.Time{}.Add(time.Duration(verifNondetU32("now")))
 	cfg := &Config{RootCAs: roots, Time: func() time.Time { return now }, Rand: verifRand0{}}
 	cfg.InsecureSkipVerify = verifSplitInt("skipVerify", 0, 1) == 1
-	if verifSplitInt("haveServerName", 0, 1) == 1 {
-		cfg.ServerName = "a.b"
-	}
+	// server name: none, a DNS name, IP literals (the name must reach the X.509 check in every form)
+	cfg.ServerName = []string{"", "a.b", "1.2.3.4", "[::1]", "fe80::1%eth0"}[verifSplitInt("serverName", 0, 4)]
 	c := verifBareConn(cfg, true)
 	err := c.verifyServerCertificate(rawCerts(n))
 	if err != nil {
